@@ -1,6 +1,6 @@
 import RotondaModel.Model.Mrt
 /-! Line driver for the mrt-file-in model (C16). One case per input line.
-Variant flags: `sc=`, `iso=`, `overlap=` `as-written` | `repaired` (default as-written). -/
+Variant flags: `sc=`, `iso=`, `overlap=`, `dumpreg=` `as-written` | `repaired` (default as-written). -/
 open Rotonda.Mrt
 
 def ADDRS : List String := ["10.0.0.1", "10.0.0.2", "192.0.2.7", "2001:db8::1", "2001:db8::2", "fe80::7"]
@@ -49,23 +49,23 @@ def showUpd : Upd → String
   | .bulk id v6 ann wd => s!"B i{id}" ++ String.join (ann.map fun p => " +" ++ pfxName v6 p) ++ String.join (wd.map fun p => " -" ++ pfxName v6 p)
   | .withdraw id => s!"W i{id}"
 
-def runCase (v : Variant) (line : String) : String :=
+def runCase (d : Site) (v : Variant) (line : String) : String :=
   match line.splitOn "|" with
   | ["q", files] =>
     match (files.splitOn "#").mapM parseFile with
     | some fs =>
-      let q := runQueue v 1 ⟨2, []⟩ fs
+      let q := runQueueD d v 1 ⟨2, []⟩ fs
       let ups := if q.out.isEmpty then "-" else ",".intercalate (q.out.map showUpd)
       s!"{ups}|r:{",".intercalate (q.resps.map fun b => if b then "ok" else "dead")}|n={q.reg.next}"
     | none => "bad-case"
   | _ => "bad-case"
 
-partial def loop (v : Variant) (h : IO.FS.Stream) (out : IO.FS.Stream) : IO Unit := do
+partial def loop (d : Site) (v : Variant) (h : IO.FS.Stream) (out : IO.FS.Stream) : IO Unit := do
   let line ← h.getLine
   if line.isEmpty then return ()
-  out.putStrLn (runCase v (line.trimAscii.toString))
-  loop v h out
+  out.putStrLn (runCase d v (line.trimAscii.toString))
+  loop d v h out
 
 def main (args : List String) : IO Unit := do
   let site (k : String) : Site := if args.contains (k ++ "=repaired") then .repaired else .asWritten
-  loop ⟨site "sc", site "iso", site "overlap"⟩ (← IO.getStdin) (← IO.getStdout)
+  loop (site "dumpreg") ⟨site "sc", site "iso", site "overlap"⟩ (← IO.getStdin) (← IO.getStdout)
